@@ -77,11 +77,15 @@ let tok_of_log l = if l = [] then "-" else String.concat "," (List.map tok_of_op
 let dispatch cmd a =
   let zi i = z_of_string a.(i) in
   match cmd with
-  | "via" -> (* seekable readinto read_evlrs chunk|- xfile : result | log | no_seek_tell *)
-    let c = { c_seekable = bool_of_tok a.(0); c_readinto = bool_of_tok a.(1) } in
-    let chunk = if a.(3) = "-" then None else Some (zi 3) in
-    let (r, log) = read_via c (bool_of_tok a.(2)) chunk (bytes_of_tok a.(4)) in
+  | "via" -> (* seekable readinto has_seekable read_evlrs chunk|- xfile : result | log | no_seek_tell *)
+    let c = { c_seekable = bool_of_tok a.(0); c_readinto = bool_of_tok a.(1); c_has_seekable = bool_of_tok a.(2) } in
+    let chunk = if a.(4) = "-" then None else Some (zi 4) in
+    let (r, log) = read_via c (bool_of_tok a.(3)) chunk (bytes_of_tok a.(5)) in
     res tok_of_lasfile r ^ " | " ^ tok_of_log log ^ " | " ^ tok_of_bool (no_seek_tell log)
+  | "open" -> (* seekable readinto has_seekable read_evlrs xfile : the header after laspy.open alone | log *)
+    let c = { c_seekable = bool_of_tok a.(0); c_readinto = bool_of_tok a.(1); c_has_seekable = bool_of_tok a.(2) } in
+    let (r, log) = open_via c (bool_of_tok a.(3)) (bytes_of_tok a.(4)) in
+    res (fun rh -> tok_of_lasfile { lf_h = rh; lf_points = [] }) r ^ " | " ^ tok_of_log log ^ " | " ^ tok_of_bool (no_seek_tell log)
   | "mmap" -> res tok_of_lasfile (read_mmap (bytes_of_tok a.(0)))
   | "file" -> res tok_of_lasfile (read_file (bytes_of_tok a.(0)))
   | "set" -> (* xfile off ps i o xbytes *)
